@@ -25,7 +25,7 @@ FAMILY = {
   "quick": [("order", ["A"]), ("remove", ["A"]), ("weak", ["A"]), ("err", ["A"]),
             ("bulk", ["A"])],
   "thorough": [("orderM", ["A"]), ("removeM", ["A", "B"]), ("weakM", ["A"]), ("errM", ["A"]),
-               ("bulkM", ["A", "B"]), ("weakP", ["A"])],
+               ("bulkM", ["A", "B"]), ("weakP", ["A"]), ("err", ["A"])],
 }
 BIG_MC = ["orderL", "removeL", "bulkL"] # thorough: property only, no export
 COVER = {
@@ -33,6 +33,9 @@ COVER = {
   "remove": ["Subscribe", "Unsubscribe", "RaiseBegin", "Return", "RaiseSimple"],
   "weak": ["Subscribe", "AutoBind", "Unsubscribe", "DropOwner", "RaiseBegin", "Return", "RaiseSimple"],
   "err": ["Subscribe", "Unsubscribe", "RaiseBegin", "Return", "RaiseSimple"],
+  # (the thorough-size error configuration keeps its earlier alphabet: unsubscribing by an undeclared type is explored
+  # in the quick-size one)
+  "errM": ["Subscribe", "RaiseBegin", "Return", "RaiseSimple"],
   # thorough: the quick-size weak configuration with autoBindEvents(prefix=...)
   "weakP": ["Subscribe", "AutoBind", "Unsubscribe", "DropOwner", "RaiseBegin", "Return", "RaiseSimple"],
   # removeListeners(list) / clearHandlers(); UnsubscribeManyAny is the named
@@ -54,7 +57,7 @@ def _check(name, r):
     raise tlc.TLCError("Revent.tla violates its own property %s in %s:\n%s"
                        % (r.violated, name, r.error_trace))
   base = name.rstrip("LM")
-  tlc.require_coverage(r, COVER[base], "Revent %s" % name)
+  tlc.require_coverage(r, COVER.get(name, COVER[base]), "Revent %s" % name)
 
 
 def run(ctx):
